@@ -87,9 +87,43 @@ def with_stages(case, ks, rng=None, thr_some=False):
     return c
 
 
-def final_tables(kind, axis, X, y, init, extra, ks, thr=None):
+FORMS = SS.FORMS
+reseed_global_rng = SS.reseed_global_rng
+in_form = SS.in_form
+
+
+def gen_data_chain(rng, quick):
+    """gen_data, plus initialize='random' (default or explicit random_state) for the FPS classes."""
+    data = gen_data(rng, quick)
+    if data["kind"] in ("fps", "pcovfps", "voronoi") and rng.random() < 0.3:
+        data["init"] = "random"
+        r = rng.random()
+        if r < 0.3:
+            data["extra"]["random_state"] = 0
+        elif r < 0.5:
+            data["extra"]["random_state"] = 7
+    return data
+
+
+def as_raw(rng, ks, ncand):
+    """the same schedule with some entries written as a fraction or None (same resolved value)."""
+    out = []
+    for k in ks:
+        r = rng.random()
+        if r < 0.12 and k == ncand // 2:
+            out.append(None)
+        elif r < 0.35:
+            f = 1.0 if k == ncand else (k + 0.5) / ncand
+            out.append(f if (0 < f <= 1 and int(ncand * f) == k) else k)
+        else:
+            out.append(k)
+    return out
+
+
+def final_tables(kind, axis, X, y, init, extra, ks, thr=None, forms=None):
     """distance tables / pi_ after a chain, straight from the implementation.
-    thr = (type, value): the same score threshold is set at every stage."""
+    thr = (type, value): the same score threshold is set at every stage.
+    forms = per stage, how the (equal) data is handed over: see in_form."""
     Xa = np.array(X, float)
     Ya = None if y is None else np.array(y, float)
     kw = dict(extra)
@@ -101,10 +135,13 @@ def final_tables(kind, axis, X, y, init, extra, ks, thr=None):
         sel.score_threshold_type, sel.score_threshold = thr
     for si, k in enumerate(ks):
         sel.n_to_select = k
+        form = "same" if not forms else forms[si % len(forms)]
+        Xs, Ys = in_form(Xa, form), in_form(Ya, form)
+        reseed_global_rng()
         if Ya is None:
-            sel.fit(Xa, warm_start=si > 0)
+            sel.fit(Xs, warm_start=si > 0)
         else:
-            sel.fit(Xa, Ya, warm_start=si > 0)
+            sel.fit(Xs, Ys, warm_start=si > 0)
     out = dict(sel=[int(i) for i in sel.selected_idx_], X_selected=np.array(sel.X_selected_),
                stream=[np.array(v) for v in rec.calls])
     if hasattr(sel, "y_selected_") and axis == 0:
@@ -166,7 +203,7 @@ def run(ctx):
     viol = []
     nontrivial, seen = 0, set()
     for di in range(ndata):
-        data = gen_data(ctx.rng, ctx.quick)
+        data = gen_data_chain(ctx.rng, ctx.quick)
         ncand = len(data["X"]) if data["axis"] == 0 else len(data["X"][0])
         nr_max = ncand
         if data["kind"] in ("cur", "pcovcur"):
@@ -213,10 +250,17 @@ def run(ctx):
         except Exception as e:  # noqa
             viol.append(("cold fit raised %s: %s" % (S.err_class(e), str(e)[:120]), dict(case=data, nr=nr)))
             continue
-        for ks in scheds:
+        stats["init_random"] = stats.get("init_random", 0) + (data["init"] == "random")
+        for ks_int in scheds:
+            ks = as_raw(ctx.rng, ks_int, ncand)
+            forms = [ctx.rng.choice(FORMS) for _ in ks]
             stats["schedules"] += 1
             stats["stages"] += len(ks)
+            stats["fraction_or_none_entries"] = stats.get("fraction_or_none_entries", 0) + sum(not isinstance(k, int) for k in ks)
+            stats["fraction_or_none_warm_entries"] = stats.get("fraction_or_none_warm_entries", 0) + sum(not isinstance(k, int) for k in ks[1:])
+            stats["stages_with_data_as_other_object"] = stats.get("stages_with_data_as_other_object", 0) + sum(f != "same" for f in forms[1:])
             case = with_stages(data, ks, ctx.rng, thr_some=True)
+            case["forms"] = forms
             stats["thr_unreached"] += any("thr_val" in s for s in case["stages"])
             try:
                 res = c01.run_impl(case)
@@ -233,7 +277,7 @@ def run(ctx):
                 with _w.catch_warnings():
                     _w.simplefilter("ignore")
                     chain = final_tables(data["kind"], data["axis"], data["X"], data["y"], data["init"],
-                                         data["extra"], ks, thr)
+                                         data["extra"], ks, thr, forms)
             except Exception as e:  # noqa
                 viol.append(("chain %s raised %s" % (ks, S.err_class(e)), dict(case=case)))
                 continue
@@ -241,13 +285,13 @@ def run(ctx):
             if msg == "TIE":
                 stats["ties_accepted"] = stats.get("ties_accepted", 0) + 1
             elif msg:
-                viol.append(("history dependence: schedule %s, threshold %s: %s" % (ks, thr, msg),
+                viol.append(("history dependence: schedule %s (data handed over as %s), threshold %s: %s" % (ks, forms, thr, msg),
                              dict(case=case, cold_sel=cold["sel"], thr=thr)))
-            t = c01.case_coq(case, res)
+            t = None if data["extra"].get("random_state", 0) != 0 else c01.case_coq(case, res)
             if t is not None:
                 texts.append(t)
                 metas.append(dict(case=case, observed=res))
-            key = repr((data["kind"], data["axis"], data["X"], data["y"], data["init"], data["extra"], ks))
+            key = repr((data["kind"], data["axis"], data["X"], data["y"], data["init"], data["extra"], ks_int))
             if len(ks) >= 2 and key not in seen:
                 nontrivial += 1
             seen.add(key)
@@ -350,6 +394,8 @@ def run(ctx):
                 sstats["init_failures"] += 1
                 sstats["partial_init_failures"] += e.get("why") in ("list_oor", "list_long")
                 fitted_py = 0
+            sstats["shrinking_warm_requests"] = sstats.get("shrinking_warm_requests", 0) + (e.get("why") == "shrink")
+            sstats["fraction_or_none_requests"] = sstats.get("fraction_or_none_requests", 0) + (not isinstance(e["nts"], int))
             if e["warm"] and e.get("why") == "warm_unfitted":
                 sstats["warm_after_never_returned"] += 1
         sess_case = dict(kind=data["kind"], axis=data["axis"], X=data["X"], y=data["y"], init=data["init"],
@@ -404,7 +450,9 @@ def run(ctx):
         wcase = dict(kind=data["kind"], axis=data["axis"], X=data["X"], y=data["y"], init=None, extra=data["extra"],
                      family=data["family"], switch_stages=stages)
         try:
-            msg, info = SS.switch_compare(data, stages)
+            wforms = [ctx.rng.choice(FORMS) for _ in stages]
+            wcase["forms"] = wforms
+            msg, info = SS.switch_compare(data, stages, wforms)
         except Exception as e:  # noqa
             wstats["errors"] += 1
             C.report_violation(ctx, "C08 fails on the implementation: a chain with set_params(recompute_every) between "
@@ -456,7 +504,8 @@ def run(ctx):
     stats["implementation_failures"] = len(viol)
     for msg, rep in viol[:25]:          # enough replays; the total is in the coverage
         C.report_violation(ctx, "C08 fails on the implementation: " + msg, rep, found_input=True)
-    for i in mism:
+    stats["select_model_mismatches"] = len(mism)
+    for i in mism[:10]:                 # enough replays; the total is in the coverage
         C.report_violation(ctx, "correspondence Select model vs implementation broken on a warm-started chain",
                            dict(correspondence="schain_ok (Model/Select.v)", **metas[i]), found_input=False)
     for i in smism:
@@ -515,7 +564,7 @@ def replay(ctx, obj):
         return 1 if msg else 0
     if "switch_stages" in case:
         data = {k: case[k] for k in ("kind", "axis", "X", "y", "init", "extra")}
-        msg, info = SS.switch_compare(data, [tuple(s) for s in case["switch_stages"]])
+        msg, info = SS.switch_compare(data, [tuple(s) for s in case["switch_stages"]], case.get("forms"))
         if msg == "TIE":
             msg = None
         print("replay:", msg or "property holds on this input now", info)
@@ -526,7 +575,8 @@ def replay(ctx, obj):
     ks = [s["nts"] for s in case["stages"]]
     thr = tuple(obj["thr"]) if obj.get("thr") else None
     cold = final_tables(case["kind"], case["axis"], case["X"], case["y"], case["init"], case["extra"], [ks[-1]], thr)
-    chain = final_tables(case["kind"], case["axis"], case["X"], case["y"], case["init"], case["extra"], ks, thr)
+    chain = final_tables(case["kind"], case["axis"], case["X"], case["y"], case["init"], case["extra"], ks, thr,
+                         case.get("forms"))
     msg = tables_equal(case["kind"], chain, cold)
     if msg == "TIE":
         msg = None
